@@ -2,6 +2,7 @@
 (* C10, direction V: recorded executions of pfst's raw source edits validated  *)
 (* against RawLaws.  One event per public call:                                *)
 (*   e = [call : "put_src" | "raw_put" | "reparse" | "put_none",               *)
+(*        self : "root" | "stmt" | "expr" (kind of node the method was called on), *)
 (*        quad : 4 bounds [k |-> "int"|"end", v] as passed to pfst,             *)
 (*        repl : text id of the replacement, outcome : "ok" | "raise",         *)
 (*        otext, valid, oS, oP : the oracle row (ast.parse of the text with    *)
@@ -41,7 +42,12 @@ OTree(e)    == [s |-> e.oS, p |-> e.oP]
 
 (* domain: the law is judged on calls made while source and tree are in step;   *)
 (* reparse() is the call that is meant for the other case and is always judged  *)
-InDomain(s, e) == InSync(s) \/ e.call = "reparse"
+(* root kinds: Module (exec) and Expression (eval).  Interactive roots are out:  *)
+(* CPython's `single` start rule wants the NEWLINE after a compound statement,   *)
+(* so "valid for the root's kind" would depend on a trailing newline that pfst's *)
+(* line list does not represent.                                                 *)
+RootKindInDomain(s) == s.rootKind \in {"Module", "Expression"}
+InDomain(s, e) == RootKindInDomain(s) /\ (InSync(s) \/ e.call = "reparse")
 
 C10Call(e) == e.call \in {"put_src", "raw_put", "reparse"}
 
@@ -198,11 +204,11 @@ SkPart(P, N, i, valid) ==
           ELSE "local"
 
 ClassOf(s, e) ==
-  IF IsClipErr(s, e) THEN e.call \o "/cliperror"
+  IF IsClipErr(s, e) THEN s.rootKind \o ":" \o e.call \o "@" \o e.self \o "/cliperror"
   ELSE
   LET tx == Pre(s)  R == Rect(s, e)  p == Repl(e)  new == New(s, e)
       P == PStm(s)  T == Toks(s)  i == EncIdx(P, R)
-  IN e.call \o "/in:" \o InPart(P, i, R) \o "/at:" \o AtPart(P, i, R) \o "/tok:" \o TokPart(T, R)
+  IN s.rootKind \o ":" \o e.call \o "@" \o e.self \o "/in:" \o InPart(P, i, R) \o "/at:" \o AtPart(P, i, R) \o "/tok:" \o TokPart(T, R)
        \o "/fx:" \o FxPart(tx, new, T, P, i, R, p) \o "/sk:" \o SkPart(P, NStm(e), i, e.valid)
 
 (* ======================================================================== *)
